@@ -7,6 +7,7 @@ import DtailModel.Lemmas.GrepCount
 import DtailModel.Lemmas.Fast
 import DtailModel.Lemmas.GlobID
 import DtailModel.Lemmas.GenGlobID
+import DtailModel.Lemmas.GenPlain
 namespace Dtail.C07
 open Dtail
 
@@ -181,5 +182,32 @@ theorem C07_generated_globid_refines_model (ext : Go.Ext) (r : Gen.Handlers.read
     (h : (splitOnByte SLASH glob).length ≤ (splitOnByte SLASH path).length) :
     ∃ id, makeGlobID path glob = .ok id ∧ Gen.Handlers.readCommand.makeGlobID ext r path glob = (r, id) :=
   GenGlobID.makeGlobID_refines ext r path glob h
+
+/-- **Tie G: the running numbers of the translated plain filter.**  `filterWithoutLContext`, `transmittable` and the line
+    counter of internal/io/fs as translated on this run: every line a cat / grep reader sends carries as its number its
+    position in the file (from 1), and is the selected line at that position — the `count` field a client prints beside the
+    host name and the file identifier. -/
+theorem C07_generated_running_numbers (ext : Go.Ext) (re : Go.GoRegex) (raws : List Bytes) (f : Gen.Fs.readFile)
+    (hc : f.canSkipLines = false) (h0 : f.stats.lineCount = 0) (hl : f.lines = []) (l : Go.GoLine)
+    (hmem : l ∈ (Gen.Fs.readFile.filterWithoutLContext ext f () raws () re).lines) :
+    ∃ c : Nat, (GenPlain.numOf l).1 = (c : Int) ∧ 1 ≤ c ∧
+      (GenPlain.judged ext re raws)[c - 1]? = some (true, (GenPlain.numOf l).2) := by
+  obtain ⟨h1, _, _⟩ := GenPlain.plain_refines ext re raws f hc
+  rw [hl, h0] at h1
+  have h2 := GenPlain.plainNumbered_eq (GenPlain.judged ext re raws) 0
+  have hm : GenPlain.numOf l ∈ (Gen.Fs.readFile.filterWithoutLContext ext f () raws () re).lines.map GenPlain.numOf :=
+    List.mem_map_of_mem hmem
+  rw [h1] at hm
+  simp only [List.map_nil, List.nil_append] at hm
+  have h2' : GenPlain.plainNumbered 0 (GenPlain.judged ext re raws)
+      = (((GenPlain.judged ext re raws).zipIdx 1).filter (·.1.1)).map
+          (fun (p : (Bool × Bytes) × Nat) => (((p.2 : Nat) : Int), p.1.2)) := by simpa using h2
+  rw [h2'] at hm
+  obtain ⟨p, hp, heq⟩ := List.mem_map.1 hm
+  have hcnt := C07_count_plain (GenPlain.judged ext re raws) p.2 p.1.2
+    (List.mem_map.2 ⟨p, hp, rfl⟩)
+  refine ⟨p.2, ?_, hcnt.1, ?_⟩
+  · rw [← heq]
+  · rw [← heq]; exact hcnt.2
 
 end Dtail.C07
